@@ -261,10 +261,23 @@ def _canon(schema, v, depth=0):
     return ['repr', type(v).__name__, str(v)]
 
 
-def dump(schema):
+_STD_KEYS = None
+
+
+def std_keys():
+    """keys of the objects that already exist in the std-only schema (std collection types such as
+    array<std|str> are not in a std module, so exclude_stdlib does not filter them)"""
+    global _STD_KEYS
+    if _STD_KEYS is None:
+        _STD_KEYS = frozenset(dump(std_schema(), raw=True))
+    return _STD_KEYS
+
+
+def dump(schema, raw=False):
     """independent structural dump: every non-std object -> {field: canonical value}, references
     resolved to names.  Keyed by 'Class name'."""
     out = {}
+    skip = frozenset() if raw else std_keys()
     for obj in schema.get_objects(exclude_stdlib=True, exclude_global=False, exclude_internal=False):
         cls = type(obj).__name__
         if cls in SKIP_CLASSES:
@@ -273,6 +286,8 @@ def dump(schema):
             name = str(obj.get_name(schema))
         except Exception:
             name = '<noname>'
+        if f'{cls} {name}' in skip:
+            continue
         fields = {}
         for fn, fld in type(obj).get_fields().items():
             if fn in SKIP_FIELDS or getattr(fld, 'ephemeral', False):
@@ -289,7 +304,7 @@ def dump(schema):
     return out
 
 
-def dump_diff(da, db, limit=6):
+def dump_diff(da, db, limit=12):
     """first differences between two dumps"""
     diffs = []
     for k in sorted(set(da) | set(db)):
@@ -531,7 +546,8 @@ def run_e2e_case(case):
     vf = case.get('verify_from', 0)
     full = bool(case.get('full'))
     for i, sdl in enumerate(chain):
-        r, committed, B = migrate_step(cur, sdl, want_detail=case.get('detail', True), verify=i >= vf, full=full)
+        r, committed, B = migrate_step(cur, sdl, want_detail=case.get('detail', True),
+                                       verify=(i >= vf and not case.get('direct')), full=full)
         if case.get('direct') and committed is not None and i > 0 and i < len(case['chain']):
             # C10: the same target reached directly from the std-only schema
             try:
@@ -547,6 +563,8 @@ def run_e2e_case(case):
             r['left_after_empty'] = left[:20]
         res['steps'].append(r)
         if committed is None:
+            if case.get('direct'):
+                continue      # C10: a step that is not accepted is skipped; the chain goes on from the current schema
             break
         cur = committed
     return res
